@@ -472,6 +472,13 @@ pub fn fmt_nested<T>(x: &T, f: &mut core::fmt::Formatter<'_>) -> (r: Result<(), 
 // std::mem::take / replace: what is handed out is the old content (what is left behind by `take` is not specified here)
 pub assume_specification<T> [std::mem::take] (dest: &mut T) -> (r: T) where T: std::default::Default, ensures r == *old(dest);
 pub assume_specification<T> [std::mem::replace] (dest: &mut T, src: T) -> (r: T) ensures r == *old(dest), *final(dest) == src;
+// a few more std functions a maintainer is likely to reach for (complete specifications only: an incomplete one would
+// turn a harmless use into an unprovable obligation)
+pub assume_specification [usize::abs_diff](a: usize, b: usize) -> (r: usize) ensures r as int == (if a >= b { a as int - b as int } else { b as int - a as int });
+pub assume_specification<T> [<[T]>::swap](s: &mut [T], a: usize, b: usize)
+    requires a < old(s)@.len(), b < old(s)@.len(),
+    ensures final(s)@ == old(s)@.update(a as int, old(s)@[b as int]).update(b as int, old(s)@[a as int]);
+pub assume_specification<T> [<[T]>::reverse](s: &mut [T]) ensures final(s)@ == old(s)@.reverse();
 // ---- X23: `a |= b;` / `a &= b;` are rewritten to `a = vs_or(a, b);` / `a = vs_and(a, b);` because Verus rejects the
 // ---- non-short-circuit `|` / `&` on bool.  Verified (not assumed) helpers; both operands are evaluated, as in the original.
 pub trait VsOrAnd: Sized {
